@@ -547,5 +547,33 @@ def r13_11(ctx):
     delegate(ctx, c12.r12_6, lambda c: "_load_old_vals" in c)
 
 
+def r13_12(ctx):
+    """R13.12 kconfgen's update_if_changed() compares like with like: the generated file and the existing destination are
+    read with the same open() keywords (encoding, newline, errors). With different newline modes a carriage return inside
+    a value is `\\r` on one side and `\\n` on the other: the texts never compare equal and the unchanged output is
+    rewritten on every run."""
+    repo = ctx.repo
+    f = repo.func("kconfgen.core:update_if_changed")
+    ctx.analysed(f.qual)
+    construct = "update_if_changed/both compared texts are read in the same mode"
+    reads = []
+    for n in ast.walk(f.node):
+        if isinstance(n, ast.Call) and ast.unparse(n.func) in ("open", "io.open") and n.args:
+            mode = ast.unparse(n.args[1]) if len(n.args) > 1 else next((ast.unparse(k.value) for k in n.keywords if k.arg == "mode"), "'r'")
+            if "w" in mode or "a" in mode or "x" in mode:
+                continue
+            reads.append((n, mode, tuple(sorted((k.arg or "**", ast.unparse(k.value)) for k in n.keywords if k.arg != "mode"))))
+    if len(reads) < 2:
+        ctx.ok(construct, f.loc(), nontrivial=False, reads=len(reads))
+        return
+    kinds = {(m, kw) for _, m, kw in reads}
+    if len(kinds) > 1:
+        a, b = reads[0], next(r for r in reads if (r[1], r[2]) != (reads[0][1], reads[0][2]))
+        ctx.bad(construct, f"`{ast.unparse(a[0])[:70]}` and `{ast.unparse(b[0])[:70]}` differ in their keywords: a value containing a carriage return "
+                "never compares equal, the unchanged output is rewritten on every run", f.loc(b[0]))
+    else:
+        ctx.ok(construct, f.loc(reads[0][0]), reads=len(reads))
+
+
 def rules():
-    return [("R13.11", r13_11, 1), ("R13.10", r13_10, 1), ("R13.9", r13_9, 1), ("R13.8", r13_8, 1), ("R13.7", r13_7, 1), ("R13.6", r13_6, 4), ("R13.5", r13_5, 3), ("R13.1", r13_1, 6), ("R13.1b", r13_1b, 2), ("R13.2", r13_2, 4), ("R13.3", r13_3, 4), ("R13.4", r13_4, 3)]
+    return [("R13.12", r13_12, 1), ("R13.11", r13_11, 1), ("R13.10", r13_10, 1), ("R13.9", r13_9, 1), ("R13.8", r13_8, 1), ("R13.7", r13_7, 1), ("R13.6", r13_6, 4), ("R13.5", r13_5, 3), ("R13.1", r13_1, 6), ("R13.1b", r13_1b, 2), ("R13.2", r13_2, 4), ("R13.3", r13_3, 4), ("R13.4", r13_4, 3)]
